@@ -854,7 +854,7 @@ func muxOptions(kind string) []larking.MuxOption {
 	case muxReplaced:
 		return []larking.MuxOption{larking.CodecOption("application/json", altJSONCodec{}), larking.CodecOption("application/protobuf", altProtoCodec{})}
 	}
-	return nil
+	return popOptions(kind) // nil unless a population kind (c04pop.go)
 }
 
 // markOf returns the magic prefix the codec registered for ct on a mux of the
@@ -864,6 +864,10 @@ func markOf(kind, ct string) string {
 	case kind == muxCustom && (ct == ctAltJSON || ct == ctAltEarly), kind == muxReplaced && ct == "application/json":
 		return altJSONMagic
 	case kind == muxCustom && ct == ctAltProto, kind == muxReplaced && ct == "application/protobuf":
+		return altProtoMagic
+	case popHas(kind, ct) && popCodecOf(ct) == "json":
+		return altJSONMagic
+	case popHas(kind, ct):
 		return altProtoMagic
 	}
 	return ""
@@ -876,10 +880,15 @@ func mediaTypesOf(kind string) []string {
 	if kind == muxCustom {
 		return []string{ctAltEarly, "application/json", "application/octet-stream", "application/protobuf", ctAltJSON, ctAltProto}
 	}
+	if _, _, ok := parsePopKind(kind); ok {
+		return popMediaTypes(kind)
+	}
 	return builtinTypes
 }
 
-func isCustomType(ct string) bool { return ct == ctAltJSON || ct == ctAltProto || ct == ctAltEarly }
+func isCustomType(ct string) bool {
+	return ct == ctAltJSON || ct == ctAltProto || ct == ctAltEarly || popCodecOf(ct) != ""
+}
 
 type altJSONCodec struct{}
 
